@@ -903,6 +903,6 @@ def _name_fields(P, K):
 
 
 def check(run, P):
-    _check_main(run, P)
+    run.do(_check_main, run, P)
     from . import generic
     generic.lints(run, P, "C07")
